@@ -77,6 +77,15 @@ func NewGen(w *World, seed uint64, profile string) *Gen {
 	for _, o := range g.Owners {
 		g.setup = append(g.setup, Op{K: "payaddr", Creator: o, Did: o + 1})
 	}
+	if profile == "staking" {
+		g.Malformed = 10
+		for k, i := range g.Nodes {
+			if k < 3 {
+				g.setup = append(g.setup, Op{K: "delegate", Creator: i, Val: 1 + k%2, Amount: int64(150000 + g.R.Intn(400000))})
+				g.setup = append(g.setup, Op{K: "reset", Creator: i, Status: 15, PeerOk: &t, Val: 1 + k%2})
+			}
+		}
+	}
 	return g
 }
 
@@ -219,7 +228,65 @@ func (g *Gen) durations() uint64 {
 	}
 }
 
+func (g *Gen) stakingTx() Op {
+	r := g.R
+	n := g.Nodes[r.Intn(len(g.Nodes))]
+	who := n
+	if r.Chance(35) {
+		who = []int{0, 10, 11}[r.Intn(3)] // third-party delegators (account 0 is the genesis delegator)
+	}
+	v := 1 + r.Intn(len(g.W.C.Vals))
+	t := true
+	switch r.Intn(12) {
+	case 0, 1, 2:
+		amt := int64(1 + r.Intn(600000))
+		if r.Chance(15) {
+			amt = 2_000_000_000_000 // more than any balance: fails after the Before hook when a delegation exists
+		}
+		return Op{K: "delegate", Creator: who, Val: v, Amount: amt}
+	case 3, 4, 5:
+		amt := int64(1 + r.Intn(400000))
+		// prefer an existing delegation of `who`
+		ctx := g.W.C.Ctx()
+		dels := g.W.C.App.StakingKeeper.GetDelegatorDelegations(ctx, g.W.C.Accounts[who].Addr, 10)
+		if len(dels) > 0 {
+			d := dels[r.Intn(len(dels))]
+			for i, val := range g.W.C.Vals {
+				if val.Addr.String() == d.ValidatorAddress {
+					v = i + 1
+				}
+			}
+			if r.Chance(30) {
+				amt = d.Shares.TruncateInt64()
+			} else if d.Shares.TruncateInt64() > 1 {
+				amt = 1 + r.Int63n(d.Shares.TruncateInt64())
+			}
+		}
+		return Op{K: "undelegate", Creator: who, Val: v, Amount: amt}
+	case 6:
+		return Op{K: "reset", Creator: n, Status: []uint32{15, 15, 15, 13, 7}[r.Intn(5)], PeerOk: &t, Val: r.Intn(len(g.W.C.Vals) + 1)}
+	case 7:
+		return Op{K: "addv", Creator: n, Size: uint64(r.Intn(8_000_000))}
+	case 8:
+		return Op{K: "remv", Creator: n, Size: uint64(1_000_000 * (1 + r.Intn(12)))}
+	case 9:
+		return Op{K: "restart"}
+	default:
+		return Op{K: "claim", Creator: n}
+	}
+}
+
+func (r *Rng) Int63n(n int64) int64 {
+	if n <= 0 {
+		return 0
+	}
+	return int64(r.U64() % uint64(n))
+}
+
 func (g *Gen) tx() Op {
+	if g.Profile == "staking" && g.R.Chance(65) {
+		return g.stakingTx()
+	}
 	li := g.live()
 	r := g.R
 	bad := r.Chance(g.Malformed)
